@@ -160,6 +160,11 @@ def main():
     counts, miss = gen_c18_sites.generate(REPO)
     vals.update(counts)      # PEER_ID_SITES
     missing += list(miss)
+    # C10: the DialError variants and the arms of AddressStore::error_score -> coq/gen/DialErrors.v
+    import gen_c10_errors
+    counts, miss = gen_c10_errors.generate(REPO)
+    vals.update(counts)      # C10_DIAL_ERROR_LEAVES, C10_ERROR_SCORE_ARMS
+    missing += list(miss)
     str_names = []
     for name, path, rx in STR_CONSTS:
         try:
